@@ -348,6 +348,21 @@ static std::string stepLine(State& s, const std::vector<std::string>& w)
             slot.last = decodeBuf(slot, b);
             return showPackets(slot.last);
         }
+        if (w[2] == "feedhuge" && w.size() == 5)
+        {
+            // a buffer of N bytes (N may exceed 2^31): the given bytes followed by zeros; the given bytes end in a segmented message whose
+            // declared payload lies inside them, so decoding stops there and only touches the front of the buffer
+            Bytes b;
+            if (!parseBytes(w[4], b)) return "bad-op";
+            const size_t n = static_cast<size_t>(std::stoull(w[3]));
+            if (n < b.size()) return "bad-op";
+            uint8_t* p = static_cast<uint8_t*>(calloc(n, 1));
+            if (!p) return "bad-op";
+            if (!b.empty()) memcpy(p, b.data(), b.size());
+            slot.last = slot.dec->decode(p, n);
+            free(p);
+            return showPackets(slot.last);
+        }
         if (w[2] == "null" && w.size() == 3)
         {
             slot.last = slot.dec->decode(nullptr, 0);
